@@ -157,7 +157,8 @@ def via_wsgi(ctx, chunks, form):
     hdrs = [("Content-Type", MC.content_type_header(form))]
     if sum(map(len, chunks)) % 2:  # half of the bodies declare their (accurate) length, as real clients do
         hdrs.append(("Content-Length", str(sum(map(len, chunks)))))
-    req = drivers.Req(method="POST", headers=hdrs, chunks=chunks)
+    # a form may come with any method that carries a payload (an HTML form posts it; APIs PUT, PATCH and DELETE with one)
+    req = drivers.Req(method=("POST", "PUT", "PATCH", "DELETE", "OPTIONS", "POST")[len(chunks) % 6], headers=hdrs, chunks=chunks)
     env = drivers.to_environ(req)
     inp = env["wsgi.input"]
     r = wsgi.Request(env)
@@ -176,7 +177,7 @@ def via_asgi(ctx, chunks, form):
     hdrs = [("Content-Type", MC.content_type_header(form))]
     if sum(map(len, chunks)) % 2:
         hdrs.append(("Content-Length", str(sum(map(len, chunks)))))
-    req = drivers.Req(method="POST", headers=hdrs)
+    req = drivers.Req(method=("POST", "PUT", "PATCH", "DELETE", "OPTIONS", "POST")[len(chunks) % 6], headers=hdrs)
     msgs = drivers.body_messages(chunks)
     box = {}
 
